@@ -53,12 +53,16 @@ DEFECT_VARIANTS = {
                           'copy /nonexistent-dir-of-verif/missing.txt', 'copy -rel HERE_PATH missing.txt',
                           'run -python -existing-file -rel-act-home missing.py',
                           # an argument given where a program SYMBOL is referenced
-                          'run @ PGM x -existing-file -rel-home missing.py', 'run @ PGM2 -existing-path missing-path'],
+                          'run @ PGM x -existing-file -rel-home missing.py', 'run @ PGM2 -existing-path missing-path',
+                          'file f2.txt = -contents-of -rel-home missing.txt -transformed-by ( replace a b | grep c )'],
     'bad_integer': ['timeout = 1.5', 'timeout = abc', 'timeout = "1 +"',
                     {'assert': 'dir-contents . : matches {\n  a.txt\n  a.txt : contents num-lines == 1.5\n}',
                      'other': 'timeout = 2.5'},
                     {'assert': 'dir-contents . : matches {\n  a.txt : contents num-lines == 1+\n  a.txt\n}',
-                     'other': 'timeout = 1+'}],
+                     'other': 'timeout = 1+'},
+                    {'assert': 'exit-code == not_an_integer && ( > 1 || < 3 )', 'other': 'timeout = @[BAD_INT]@'},
+                    {'assert': 'stdout num-lines == @[BAD_INT]@',
+                     'other': "file r.txt = 'a' -transformed-by ( filter line-num == 1+ | ( grep a | grep b ) )"}],
     'bad_regex': ["file r.txt = -contents-of -rel-home exists.txt -transformed-by replace '(' x",
                   "file r.txt = -contents-of -rel-home exists.txt -transformed-by grep '*'",
                   "file r.txt = -contents-of -rel-home exists.txt -transformed-by filter contents matches '[a'",
@@ -67,7 +71,13 @@ DEFECT_VARIANTS = {
                    'other': "file r.txt = -contents-of -rel-home exists.txt -transformed-by grep '('"},
                   # ... and in the matcher of the EARLIER of two entries with the same name
                   {'assert': "dir-contents . : matches {\n  a.txt : contents matches '('\n  b.txt\n  a.txt : type file\n}",
-                   'other': "file r.txt = -contents-of -rel-home exists.txt -transformed-by replace '[' x"}],
+                   'other': "file r.txt = -contents-of -rel-home exists.txt -transformed-by replace '[' x"},
+                  # the text of the regex comes from a string symbol (known when the symbols are: before execution)
+                  {'assert': 'stdout matches @[BAD_RE]@',
+                   'other': 'file r.txt = -contents-of -rel-home exists.txt -transformed-by replace @[BAD_RE]@ x'},
+                  # the defective operand is FOLLOWED by a composite operand
+                  {'assert': "stdout matches '(' && ( matches a || matches b )",
+                   'other': "file r.txt = -contents-of -rel-home exists.txt -transformed-by ( replace '(' x | ( grep a | grep b ) )"}],
     'wrong_type': ['def text-matcher TM = DEFINED', 'def path WP = -rel DEFINED x', 'def text-transformer WT = DEFINED',
                    # a wrong type reached indirectly, and not through the first reference of the definition
                    'timeout = @[INDIRECT]@', 'env @[INDIRECT]@ = v'],
@@ -99,7 +109,7 @@ def concretize(c, mark):
             pre = ['def string DEFINED = v', 'def path HOME_PATH = -rel-home sub', 'def path HERE_PATH = -rel-here sub',
                    'def path RESULT_PATH = -rel-result stdout',
                    'def string INDIRECT = @[DEFINED]@-@[HOME_PATH]@', 'def program PGM = % true a',
-                   'def program PGM2 = @ PGM b']
+                   'def program PGM2 = @ PGM b', "def string BAD_RE = '('", 'def string BAD_INT = 1+']
             lines.append('file created-%s.txt = x' % ph)
         if ph == c['dphase']:
             vs = DEFECT_VARIANTS.get(c['defect'])
@@ -211,7 +221,7 @@ def run(ctx):
     # except those of the classes with variants that depend on the phase)
     more = []
     for c in cases:
-        if not quick or c['defect'] in ('illegal_rel_via_symbol', 'act_syntax'):
+        if True:        # (every variant at every place, in both tiers)
             for v in range(len(DEFECT_VARIANTS.get(c['defect'], [None]))):
                 more.append(dict(c, variant=v))
         else:
